@@ -436,7 +436,7 @@ func (o *OracleC20) probes(x *Exec, s *Snap) {
 				x.Label("c20:ownerless-value-state")
 				continue
 			}
-			regime := new(big.Rat).Sub(assetTol(s, s, d.Denom), big.NewRat(2, 1))
+			regime := roundTripRegime(s, d)
 			// over-reported: the exact value is strictly below the reported balance (the
 			// report adds a 0.01-token epsilon before flooring and uses rounded ratios)
 			over := new(big.Rat).SetInt(bal).Cmp(s.PosValue(d)) > 0
